@@ -85,6 +85,19 @@ def _make_handler():
             self.invoked.append(("big", token))
             return ("big", token, "x" * n)
 
+        @allow_rpc
+        async def cancelled_inside(self, token, kind):
+            """A handler whose own awaitable is cancelled by somebody else in the server."""
+            self.invoked.append(("cancelled_inside", token))
+            loop = asyncio.get_running_loop()
+            if kind == 0:
+                fut = loop.create_future()
+                loop.call_later(0.05, fut.cancel)
+                return await fut
+            inner = asyncio.ensure_future(asyncio.sleep(10))
+            loop.call_later(0.01, inner.cancel)
+            return await inner
+
         async def hidden(self, token):
             self.invoked.append(("hidden", token))
             return "SECRET"
@@ -92,7 +105,7 @@ def _make_handler():
     return Handler()
 
 
-CALLS = ["echo", "echo", "slow", "fail_usage", "fail_internal", "unpicklable", "sync_method", "big", "hidden", "nosuch", "badargs", "echo_big"]
+CALLS = ["echo", "echo", "slow", "fail_usage", "fail_internal", "unpicklable", "sync_method", "big", "hidden", "nosuch", "badargs", "echo_big", "cancelled_inside"]
 
 
 def gen_director_scenario(seed, tier):
@@ -152,7 +165,7 @@ def expected(call):
         return ("value", ("slow", t))
     if n == "fail_usage":
         return ("error", "GraphError" if call["arg"] == 0 else "PathError")
-    if n in ("fail_internal", "unpicklable", "hidden", "nosuch", "badargs"):
+    if n in ("fail_internal", "unpicklable", "hidden", "nosuch", "badargs", "cancelled_inside"):
         return ("error", "RPCError")
     if n == "sync_method":
         return ("value", ("sync", t))
@@ -170,7 +183,7 @@ def call_args(call):
         return "echo", (t, "p" * call["size"]), {}
     if n == "slow":
         return "slow", (t, call["delay"]), {}
-    if n in ("fail_usage", "fail_internal"):
+    if n in ("fail_usage", "fail_internal", "cancelled_inside"):
         return n, (t, call["arg"]), {}
     if n in ("unpicklable", "sync_method", "hidden"):
         return n, (t,), {}
